@@ -705,7 +705,19 @@ def _s3(program, res):
     # _indent_and_sep_terms: both layouts list every term exactly once
     ist = program.method("sql_model", "SQLModel", "_indent_and_sep_terms", inherited=False)
     comps = [c for c in ast.walk(ist.node) if isinstance(c, ast.ListComp)]
-    good = [c for c in comps if unparse(c.generators[0].iter) == "range(n)" and not c.generators[0].ifs and "terms[i]" in unparse(c.elt)]
+    tparam = [p_ for p_ in ist.params() if p_ != "self"][0]
+    lens = {t.id for a_ in ast.walk(ist.node) if isinstance(a_, ast.Assign) and unparse(a_.value) == f"len({tparam})" for t in a_.targets if isinstance(t, ast.Name)}
+
+    def _walks_every_term(c):
+        g0 = c.generators[0]
+        if g0.ifs or len(c.generators) != 1 or not isinstance(g0.target, ast.Name):
+            return False
+        it = g0.iter
+        full_range = isinstance(it, ast.Call) and dotted_name(it.func) == "range" and len(it.args) == 1 \
+            and (unparse(it.args[0]) == f"len({tparam})" or (isinstance(it.args[0], ast.Name) and it.args[0].id in lens))
+        return full_range and any(isinstance(x, ast.Subscript) and unparse(x.value) == tparam and unparse(x.slice) == g0.target.id for x in ast.walk(c.elt))
+
+    good = [c for c in comps if _walks_every_term(c)]
     if len(good) == len(comps) == 2:
         res.ok("C04-S3", "both comma layouts emit terms[i] for every i in range(n)")
     else:
